@@ -977,8 +977,11 @@ class Interp:
         for name, val in list(s.env.items()):
             if val is v and isinstance(v, ListV) and v.open:
                 s.env[name] = ListV(v.items, True, v.kind, True, v.tags) if truth else ListV((), False, v.kind, False, v.tags)
-        if isinstance(v, Sym) and not truth:
-            pass
+        if isinstance(v, StrT) and not truth:
+            # a falsy string is the empty string
+            for name, val in list(s.env.items()):
+                if val is v:
+                    s.env[name] = Const("")
 
     def class_names(self, e: ast.expr) -> list[str]:
         if isinstance(e, ast.Tuple):
@@ -1466,23 +1469,7 @@ class Interp:
                 except TypeError:
                     return Top("add")
 
-            def stringish(v: AV) -> bool | None:
-                """True: certainly a str; None: could be; False: certainly not."""
-                if isinstance(v, Const):
-                    return isinstance(v.v, str)
-                if isinstance(v, (StrT, Rep)):
-                    return True
-                if isinstance(v, Alt):
-                    rs = [stringish(a) for a in v.alts]
-                    if all(r is True for r in rs):
-                        return True
-                    if any(r is False for r in rs):
-                        return False
-                    return None
-                if isinstance(v, (Sym, App)):
-                    return None
-                return False
-
+            stringish = self.stringish
             sl, sr = stringish(lv), stringish(rv)
             if (sl is True and sr is not False) or (sr is True and sl is not False):
                 return mkstr([lv, rv])
@@ -1504,6 +1491,23 @@ class Interp:
             except Exception:  # noqa: BLE001
                 pass
         return App(type(op).__name__, (lv, rv), (), getattr(node, "lineno", 0))
+
+    def stringish(self, v: AV) -> bool | None:
+        """True: certainly a str; None: could be; False: certainly not."""
+        if isinstance(v, Const):
+            return isinstance(v.v, str)
+        if isinstance(v, (StrT, Rep)):
+            return True
+        if isinstance(v, Alt):
+            rs = [self.stringish(a) for a in v.alts]
+            if all(r is True for r in rs):
+                return True
+            if any(r is False for r in rs):
+                return False
+            return None
+        if isinstance(v, (Sym, App)):
+            return None
+        return False
 
     def e_Lambda(self, e, s):
         return [(App("lambda", (Const(norm(e.body)),), ()), s)]
